@@ -239,13 +239,13 @@ example : txJ ⟨⟨2, 0, [.gen 5], [], [1]⟩, [], none, none⟩ =
     .obj [("prefix", .obj [("version", .num 2), ("unlock_time", .num 0),
             ("inputs", .arr [.obj [("Gen", .obj [("height", .num 5)])]]), ("outputs", .arr []), ("extra", .arr [.num 1])]),
           ("signatures", .arr []), ("rct_signatures", .obj [("sig", .null), ("p", .null)])] := rfl
-example : InRange false (2 ^ 64 - 1) ∧ ¬ Small (2 ^ 64 - 1) := by
+example : InRange false (2 ^ 64 - 1) ∧ ¬ Json.Small (2 ^ 64 - 1) := by
   refine ⟨by simp [InRange], ?_⟩
   unfold Json.Small; omega
-example : InRange true (-(2 ^ 63)) ∧ ¬ Small (-(2 ^ 63)) := by
+example : InRange true (-(2 ^ 63)) ∧ ¬ Json.Small (-(2 ^ 63)) := by
   refine ⟨by simp [InRange], ?_⟩
   unfold Json.Small; omega
-example : InRange true (-(2 ^ 63 - 1)) ∧ Small (-(2 ^ 63 - 1)) := by
+example : InRange true (-(2 ^ 63 - 1)) ∧ Json.Small (-(2 ^ 63 - 1)) := by
   refine ⟨by simp [InRange], ?_⟩
   unfold Json.Small; omega
 
